@@ -1,8 +1,9 @@
-\* exhaustive enumeration of family "small": all its signer configurations x all call contexts (MaxLinks = 3)
+\* exhaustive enumeration of family "small": every signer configuration of the family x every call context
+\* with up to 2 links below the entry script x every account; invariant ImplAgrees = Impl => Abstract
 SPECIFICATION Spec
 CONSTANTS
   Family = "small"
   Deviation = "none"
-  MaxLinks = 3
+  MaxLinks = 2
 INVARIANTS ImplAgrees Emit
 CHECK_DEADLOCK FALSE
